@@ -28,7 +28,7 @@ TECHNIQUE = ("runtime monitor: wire-history oracle (per connection epoch counter
 LEVEL_TEXT = (
     "The real UDPTunnel talks to a scripted gateway on the virtual loop. The n-th TunnellingRequest transmission the gateway sees "
     "is answered according to the n-th letter of a behaviour string over {ok, lost, late 1.5 s, duplicate, stale (previous counter), "
-    "other channel, error status}; ALL strings up to the stated length are run for 3 sends issued sequentially, concurrently and "
+    "other channel, error status, status octet outside ErrorCode (0x30/0x7F/0xFF as raw bytes, right channel and counter)}; ALL strings up to the stated length are run for 3 sends issued sequentially, concurrently and "
     "staggered, with and without auto-reconnect, with user disconnect()/connect() cycles on the same tunnel object between the "
     "sends, and with the gateway handing out a fresh / the same / a recycled channel id for every connection; every string up to a shorter bound is also run with a server DisconnectRequest "
     "injected at every event-loop iteration of its own baseline run (and in the middle of every sleep), combined with handshake "
@@ -50,7 +50,13 @@ LEVEL_NOTE = (
 SHARDS = {"quick": 1, "thorough": 16}
 TIMEOUT = {"quick": 300, "thorough": 3000}
 
-LETTERS = {"o": "ok", "l": "lost", "t": "late", "d": "dup", "s": "stale", "w": "wrongch", "e": "err"}
+LETTERS = {"o": "ok", "l": "lost", "t": "late", "d": "dup", "s": "stale", "w": "wrongch", "e": "err", "x": "raw"}
+RAW = ("raw30", "raw7f", "rawff")  # right channel and counter, status octet outside ErrorCode (0x30 / 0x7F / 0xFF), raw bytes
+
+
+def behaviour(letter, n):
+    name = LETTERS[letter]
+    return RAW[n % 3] if name == "raw" else name
 MODES = ("seq", "conc", "stag", "seq-noauto", "seq-reuse", "seq-noauto-reuse")
 
 
@@ -86,9 +92,9 @@ def run_case(script, mode="seq", n_sends=3, inject_at=None, transport="udp", fau
             gw.disc_policy = lambda n, b: "silent"
     if faults is not None:
         fl = {int(k): v for k, v in faults.items()}
-        gw.ack_policy = lambda n, body: LETTERS[fl[n]] if n in fl else "ok"
+        gw.ack_policy = lambda n, body: behaviour(fl[n], n) if n in fl else "ok"
     else:
-        gw.ack_policy = lambda n, body: LETTERS[script[n]] if n < len(script) else "ok"
+        gw.ack_policy = lambda n, body: behaviour(script[n], n) if n < len(script) else "ok"
     auto = "noauto" not in mode
 
     def inject():
@@ -185,7 +191,8 @@ def judge_history(log, udp=True):
     problems = []
     stats = {"tx_requests": 0, "acks_delivered": 0, "epochs": 0, "send_ok": 0, "send_fail": 0, "repetitions": 0,
              "foreign_acks_delivered": 0, "requests_on_closed_channel_recorded": 0,
-             "requests_to_announced_data_endpoint_recorded": 0, "requests_sent_elsewhere_recorded": 0}
+             "requests_to_announced_data_endpoint_recorded": 0, "requests_sent_elsewhere_recorded": 0,
+             "raw_status_acks_delivered": 0}
     endpoint = None
     epoch = 0
     epoch_ch = None
@@ -252,6 +259,8 @@ def judge_history(log, udp=True):
             txs.setdefault(tag, []).append((idx, epoch, ch, seq))
         elif kind == "rx" and typ == "TunnellingAck":
             stats["acks_delivered"] += 1
+            if str(info["status"]).startswith("RAW_"):
+                stats["raw_status_acks_delivered"] += 1
             acks.append((idx, epoch, info["ch"], info["seq"], info["status"]))
         elif kind in ("send_ok", "send_fail"):
             tag = info["tag"]
@@ -395,20 +404,22 @@ def _run(ctx):
                 "the baseline; 300-send wrap runs (UDP with sparse faults, TCP with server disconnects); distinct = (transport, mode, "
                 "event-kind string of the wire history)")
     ctx.require("tx_requests", "acks_delivered", "repetitions", "epochs", "send_ok", "send_fail", "foreign_acks_delivered",
-                "server_disconnects_injected", "runs_conc_udp", "runs_seq_tcp", "runs_seq_secure", "runs_conc_secure",
+                "server_disconnects_injected", "raw_status_acks_delivered", "runs_conc_udp", "runs_seq_tcp", "runs_seq_secure", "runs_conc_secure",
                 "epochs_secure", "tx_requests_secure", "runs_channel_ids_constant", "runs_channel_ids_recycled",
                 "reconnects_with_the_same_channel_id", "user_reconnects_on_same_object", "runs_seq-reuse_udp", "runs_seq-noauto-reuse_udp", "frames_on_later_connection_secure", "frames_on_later_connection_tcp", "runs_route_back",
                 "reconnects_completed_under_connect_fault", "connect_response_right_after_failed_send",
                 *(f"runs_connect_fault_{cf}" for cf in CONNECT_FAULTS))
-    assert set(LETTERS.values()) == set(ACK_BEHAVIOURS)
+    assert (set(LETTERS.values()) - {"raw"}) | set(RAW) == set(ACK_BEHAVIOURS)
     i = 0
     for script in all_scripts(n_all):
         for mode in MODES:
             i += 1
             if not ctx.mine(i):
                 continue
+            if ctx.quick and len(script) == n_all and mode in ("stag", "seq-noauto-reuse"):
+                continue  # quick budget: these two modes up to one letter less
             judge_case(ctx, script, mode, sample=script in ("ls", "low", "td") and mode == "seq")
-            if mode in ("seq", "seq-reuse"):
+            if mode in ("seq", "seq-reuse") and not (ctx.quick and len(script) == n_all):
                 judge_case(ctx, script, mode, channel_policy="constant")
     ctx.extra["strings_enumerated"] = sum(len(LETTERS) ** k for k in range(n_all + 1))
     ctx.extra["bound"] = {"behaviour_string_length": n_all, "sends": 3, "disconnect_injection_string_length": n_inj}
@@ -443,7 +454,7 @@ def _run(ctx):
         i += 1
         if not ctx.mine(i):
             continue
-        faults = {rng.randrange(1, 330): rng.choice("ldtswe") for _ in range(rng.randint(2, 8))}
+        faults = {rng.randrange(1, 330): rng.choice("ldtswex") for _ in range(rng.randint(2, 8))}
         judge_case(ctx, "", "seq", n_sends=300, faults=faults)
         discs = {rng.randrange(1, 300) for _ in range(rng.randint(0, 3))}
         judge_case(ctx, "", "seq", n_sends=300, transport="tcp", server_disc_after_tx=discs)
